@@ -43,7 +43,15 @@ def gen_graph(rnd, n=None, family=None, label_kind=None, allow_dup=True):
             g[a][1].append(b)
         if both and a not in g[b][1]:
             g[b][1].append(a)
-    if family in ('chain', 'line'):
+    if family == 'merge':
+        # one-way feeders merging into a common one-way continuation (two predecessors for the same successor edge)
+        k = max(1, n - 2)
+        hub = L[k] if k < n else L[-1]
+        for a in L[:k]:
+            add(a, hub, both=False)
+        for a, b in zip(L[k:], L[k + 1:]):
+            add(a, b, both=rnd.random() < 0.3)
+    elif family in ('chain', 'line'):
         for a, b in zip(L, L[1:]):
             add(a, b)
     elif family == 'oneway':
